@@ -247,6 +247,9 @@ class VCPythonEngine:
         #
         elif isinstance(tp, (model.StructOrUnion, model.EnumType)):
             # a struct (not a struct pointer) as a function argument
+            if isinstance(tp, model.StructOrUnion):
+                # fields not named by a list/dict initializer are zero
+                self._prnt('  memset((char *)&%s, 0, sizeof(%s));' % (tovar, tovar))
             self._prnt('  if (_cffi_to_c((char *)&%s, _cffi_type(%d), %s) < 0)'
                       % (tovar, self._gettypenum(tp), fromvar))
             self._prnt('    %s;' % errcode)
